@@ -871,7 +871,7 @@ func (g *gen) paramVal(kind string) string {
 		// how many addresses to generate / scan: the work is proportional to the
 		// number, and nothing bounds it (see the unbounded_count witness at the end
 		// of the run), so the main stream keeps valid counts small
-		return g.pick([]string{"0", "1", "2", "3", "7", "20", "100", "700", "", "-1", "1.5", "1e3", "0x10", " 1", "18446744073709551616", "99999999999999999999999999", "NaN", "٣"})
+		return g.pick([]string{"0", "1", "2", "3", "7", "20", "50", "", "-1", "1.5", "1e3", "0x10", " 1", "18446744073709551616", "99999999999999999999999999", "NaN", "٣"})
 	case "uintList":
 		k := g.r.Intn(5)
 		var xs []string
@@ -1260,6 +1260,8 @@ func run(args []string) error {
 	}
 	weight := map[string]int{"/api/v2/transaction/verify": 6, "/api/v1/injectTransaction": 3, "/api/v2/transaction": 3, "/api/v1/wallet/transaction": 3,
 		"/api/v2/wallet/transaction/sign": 2, "/api/v1/transactions": 2, "/api/v2/transactions": 2, "/api/v1/blocks": 2}
+	growing := map[string]bool{"/api/v1/wallet/create": true, "/api/v1/wallet/createTemp": true, "/api/v1/wallet/newAddress": true, "/api/v1/wallet/scan": true,
+		"/api/v2/wallet/recover": true, "/api/v2/data": true}
 	destructive := map[string]bool{"/api/v1/wallet/unload": true, "/api/v1/wallet/encrypt": true, "/api/v1/wallet/decrypt": true}
 	for _, rt := range routes {
 		k := perRoute
@@ -1271,6 +1273,11 @@ func run(args []string) error {
 		}
 		if destructive[rt.Path] && k > perRoute/2 {
 			k = perRoute / 2
+		}
+		// endpoints that grow the wallets: the cost of every later wallet request is
+		// proportional to what they accumulated, so their share does not scale with the budget
+		if growing[rt.Path] && k > 60 {
+			k = 60
 		}
 		ms := methodsOf(rt)
 		for i := 0; i < k; i++ {
